@@ -310,6 +310,11 @@ class CallMixin:
       return z3.BoolVal(True)
     if n == 'inspect.Parameter':
       return is_VParam(v)
+    if n == 'Sequence':      # typing.Sequence: list / tuple (str is excluded by the callers' domain)
+      return z3.And(is_VRef(v), z3.Or(cls_in(st.heap.cls(ref(v)), 'list'),
+                                      cls_in(st.heap.cls(ref(v)), 'tuple')))
+    if n == 'Dict':
+      return z3.And(is_VRef(v), cls_in(st.heap.cls(ref(v)), 'dict'))
     if n in CLASSES:
       return z3.And(is_VRef(v), cls_in(st.heap.cls(ref(v)), n))
     if n == 'type':
@@ -317,7 +322,19 @@ class CallMixin:
     self.unsupp(f'isinstance(_, {n})', node)
 
   def bi_isinstance(self, pos, kw, st, node):
+    if z3.is_expr(pos[1]):
+      # dynamic type value: needs an abstract (pure-predicate) contract named by the sidecar
+      cur = self.ctr_stack[-1]
+      if 'isinstance' in cur.calls:
+        return self.call_named_contract(cur.calls['isinstance'], pos, kw, st, node)
+      self.unsupp('isinstance with a dynamic type value', node)
     return [Res(st, VBool(self.isinstance_cond(pos[0], pos[1], st, node)))]
+
+  def bi_issubclass(self, pos, kw, st, node):
+    cur = self.ctr_stack[-1]
+    if 'issubclass' in cur.calls and all(z3.is_expr(p) for p in pos):
+      return self.call_named_contract(cur.calls['issubclass'], pos, kw, st, node)
+    self.unsupp('issubclass', node)
 
   def bi_callable(self, pos, kw, st, node):
     v = pos[0]
@@ -967,6 +984,14 @@ class CMValue(Abstract):
 
   def __init__(self, ctr, argmap, st, h0):
     self.ctr, self.argmap, self.st, self.h0 = ctr, argmap, st, h0
+
+
+# classes whose construction is "allocate and set these fields" (dataclasses / trivial __init__)
+DATACLASSES = {
+    '_Placeholder': ['index'],
+    'HistoryEntry': ['sequence_id', 'param_name', 'kind', 'new_value', 'location'],
+    'Location': ['filename', 'line_number', 'function_name'],
+}
 
 
 def _ancestors(name):
